@@ -393,6 +393,8 @@ pub struct SimCore {
     pub sched: Sched,
     /// Storage operations allowed per call before the call is declared hung.
     pub op_budget: u32,
+    /// Simulated wall clock at operation 0 (seconds since the epoch).
+    pub clock_base: std::sync::atomic::AtomicI64,
 }
 
 /// Order-independent digest of every operation log of this process (XOR of per-world log
@@ -441,6 +443,7 @@ impl SimCore {
             log: Mutex::new(Vec::new()),
             sched: Sched::default(),
             op_budget: 200_000,
+            clock_base: std::sync::atomic::AtomicI64::new(SIM_EPOCH),
         })
     }
     pub fn snapshot(&self) -> MemStore {
@@ -495,7 +498,7 @@ enum Step {
 
 pub const SIM_EPOCH: i64 = 1_700_000_000;
 
-fn simulated_clock_rewrite(op: &Op, seq: u64) -> Option<Op> {
+fn simulated_clock_rewrite(op: &Op, base: i64, seq: u64) -> Option<Op> {
     let Op::Write { path, content, mode } = op else { return None };
     let key = if path.ends_with("BANDHEAD") {
         "start_time"
@@ -509,7 +512,7 @@ fn simulated_clock_rewrite(op: &Op, seq: u64) -> Option<Op> {
     if !obj.contains_key(key) {
         return None;
     }
-    obj.insert(key.to_string(), serde_json::json!(SIM_EPOCH + seq as i64));
+    obj.insert(key.to_string(), serde_json::json!(base + seq as i64));
     let mut bytes = serde_json::to_vec(&v).ok()?;
     bytes.push(b'\n');
     Some(Op::Write {
@@ -572,7 +575,7 @@ impl Interceptor {
         // stored bytes - and everything that later depends on them, such as which byte a
         // seeded bit flip hits - are a function of the scenario alone.
         let rewritten;
-        let op = match simulated_clock_rewrite(op, log.len() as u64) {
+        let op = match simulated_clock_rewrite(op, self.core.clock_base.load(SeqCst), log.len() as u64) {
             Some(o) => {
                 rewritten = o;
                 &rewritten
